@@ -29,6 +29,12 @@ VehClassTree(b) ==
   ELSE IF ~IsAlnum(b[1]) \/ ~IsAlnum(b[2]) \/ ~IsAlnum(b[3]) THEN (IF b[1] = 0 /\ b[2] = 0 /\ b[3] = 0 THEN "unknown" ELSE "mod")
   ELSE IF SubSeq(b, 1, 3) \in StdVehicles THEN "std" ELSE "error"
 VehWire(v) == VehBytes(v)
+\* the printed form: the three-letter name, or LFS's skin id of a mod: the identifier in upper-case hexadecimal, at least 6 digits
+HexDigit(d) == IF d < 10 THEN 48 + d ELSE 55 + d
+Hex4(n) == <<HexDigit(n \div 4096), HexDigit((n \div 256) % 16), HexDigit((n \div 16) % 16), HexDigit(n % 16)>>
+ModName(id) == LET d == Hex4(id[2]) \o Hex4(id[1]) IN
+               IF d[1] = 48 /\ d[2] = 48 THEN SubSeq(d, 3, 8) ELSE IF d[1] = 48 THEN SubSeq(d, 2, 8) ELSE d
+VehDisplay(c) == CASE c.k = "std" -> c.name [] c.k = "mod" -> ModName(c.id) [] OTHER -> <<85, 110, 107, 110, 111, 119, 110>>
 \* the licence a car needs (LFS: three demo cars, six more with S1, the rest of the built-in cars with S2, mods with S3)
 VehLicence(c) == IF c.k # "std" THEN "S3"
                  ELSE IF c.name \in {<<88,70,71>>, <<88,82,71>>, <<70,66,77>>} THEN "Demo"
@@ -48,6 +54,11 @@ TrackArea(c) == SubSeq(c, 1, 2)
 \* the configuration a reversed / open configuration is derived from: BL1R -> BL1, AS7Y -> AS7X -> AS7
 TrackBaseCfg(c) == IF LastOf(c) \in {82, 88} THEN SubSeq(c, 1, Len(c) - 1)
                    ELSE IF LastOf(c) = 89 THEN SubSeq(c, 1, Len(c) - 1) \o <<88>> ELSE c
+\* the configuration code without its R / X / Y letter, and that letter (0 = none)
+TrackStem(c) == IF Len(c) >= 4 /\ LastOf(c) \in {82, 88, 89} THEN SubSeq(c, 1, Len(c) - 1) ELSE c
+TrackSuffix(c) == IF Len(c) >= 4 /\ LastOf(c) \in {82, 88, 89} THEN LastOf(c) ELSE 0
+\* BL Blackwood; SO South City; FE Fern Bay; AU Autocross; KY Kyoto; WE Westhill; AS Aston; RO Rockingham; LA Layout Square (as code points)
+AreaName == [BL |-> <<66, 108, 97, 99, 107, 119, 111, 111, 100>>, SO |-> <<83, 111, 117, 116, 104, 32, 67, 105, 116, 121>>, FE |-> <<70, 101, 114, 110, 32, 66, 97, 121>>, AU |-> <<65, 117, 116, 111, 99, 114, 111, 115, 115>>, KY |-> <<75, 121, 111, 116, 111>>, WE |-> <<87, 101, 115, 116, 104, 105, 108, 108>>, AS |-> <<65, 115, 116, 111, 110>>, RO |-> <<82, 111, 99, 107, 105, 110, 103, 104, 97, 109>>, LA |-> <<76, 97, 121, 111, 117, 116, 32, 83, 113, 117, 97, 114, 101>>]
 \* area codes and the licence their area needs
 AreaLicence == [BL |-> "Demo", SO |-> "S1", FE |-> "S1", AU |-> "S1", KY |-> "S2", WE |-> "S2", AS |-> "S2", RO |-> "S3", LA |-> "S3"]
 AreaKey(c) == CASE TrackArea(c) = <<66, 76>> -> "BL" [] TrackArea(c) = <<83, 79>> -> "SO" [] TrackArea(c) = <<70, 69>> -> "FE"
